@@ -1,0 +1,40 @@
+//go:build verif
+
+// Package verifhs re-exports the internal handshake package for the
+// verification harness in /verif (Go forbids importing internal/ packages
+// from outside the pkg/p2p/libp2p tree). It lives in its own directory, not
+// in package libp2p, because package libp2p does not compile with the
+// toolchain of the verification sandbox (quic-go 0.27 refuses Go >= 1.19).
+// Add-only: nothing here is referenced by the node itself, and without the
+// build tag `verif` the directory holds no Go files.
+package verifhs
+
+import (
+	handshake "github.com/gauss-project/aurorafs/pkg/p2p/libp2p/internal/handshake"
+	handshakepb "github.com/gauss-project/aurorafs/pkg/p2p/libp2p/internal/handshake/pb"
+)
+
+// Service is handshake.Service (methods Handshake, Handle, SetPicker, ...).
+type Service = handshake.Service
+
+// AddressResolver is handshake.AdvertisableAddressResolver.
+type AddressResolver = handshake.AdvertisableAddressResolver
+
+// New is handshake.New.
+var New = handshake.New
+
+// Sentinel errors of the handshake package.
+var (
+	ErrNetworkIDIncompatible = handshake.ErrNetworkIDIncompatible
+	ErrInvalidAck            = handshake.ErrInvalidAck
+	ErrInvalidSyn            = handshake.ErrInvalidSyn
+	ErrPicker                = handshake.ErrPicker
+)
+
+// Wire messages of the handshake protocol.
+type (
+	Syn        = handshakepb.Syn
+	Ack        = handshakepb.Ack
+	SynAck     = handshakepb.SynAck
+	BzzAddress = handshakepb.BzzAddress
+)
